@@ -48,7 +48,7 @@ func typeGuardFor(p *core.Program, rel string, fd *ast.FuncDecl, al *eng.Aliases
 	}
 	var mk func(al *eng.Aliases, isNode func(ast.Expr) bool, isTypeParam func(ast.Expr) bool) *eng.TypeGuard
 	mk = func(al *eng.Aliases, isNode func(ast.Expr) bool, isTypeParam func(ast.Expr) bool) *eng.TypeGuard {
-		g := &eng.TypeGuard{Info: info}
+		g := &eng.TypeGuard{Info: info, Defs: eng.SingleDefs(info, fd.Body)}
 		g.Is = func(e ast.Expr) bool {
 			e = eng.Unparen(e)
 			if isTypeParam != nil && isTypeParam(e) {
